@@ -23,6 +23,7 @@ def run(ck, tier, seed):
             if q and src == "ops" and opts not in (0, 3, 6):
                 continue
             js = corpus.jobs(maxlines=maxlines, pairs=pairs, opts=opts, with_fonttests=True)
+            js += corpus.collision_jobs(tmp, n=40 if q else 400, opts=opts)
             for j in js:
                 j["src"] = src
             jf = os.path.join(tmp, "jobs_%s_%d.ndjson" % (src, opts))
